@@ -4,6 +4,8 @@ import (
 	"fmt"
 	"strings"
 
+	"github.com/tyler-sommer/stick"
+
 	"verifharness/fw"
 	"verifharness/gen"
 )
@@ -21,7 +23,7 @@ func (p *c10) Exhaustive() bool { return true }
 
 var (
 	c10Kinds   = []string{"include", "embed"}
-	c10Modes   = []string{"plain", "with", "only", "with+only", "with-override"}
+	c10Modes   = []string{"plain", "with", "only", "with+only", "with-override", "with-variable+only", "with-variable"}
 	c10Sites   = []string{"top", "loop", "block-of-extending-host", "macro", "if", "host-block-same-name"}
 	c10Targets = []string{"plain", "sets-colliding", "sets-fresh", "extends-base", "extends-base-sets"}
 	c10Pool    = []string{"x", "y", "w", "z"}
@@ -98,6 +100,11 @@ func c10construct(c c10cfg, tplName string, over int, tag string) gen.Node {
 		only = true
 	case 4:
 		with = &gen.EHash{Keys: []gen.Expr{nm("x")}, Vals: []gen.Expr{str("wx-" + tag)}}
+	case 5:
+		with = nm("vars") // an existing hash, not a literal: the target must get a copy
+		only = true
+	case 6:
+		with = nm("vars")
 	}
 	if c.kind == 0 {
 		return &gen.NInclude{Tpl: str(tplName), With: with, Only: only}
@@ -122,6 +129,10 @@ func (p *c10) buildCfg(c c10cfg) *Program {
 		site = append(site, tx("~"), c10construct(c, "tgt", 3-c.over, "2"))
 	}
 	site = append(site, c10probe("after")...)
+	if c.mode >= 5 {
+		// the host's hash must be untouched by what the target assigned
+		site = append(site, tx("{vars:"), pr(attr(nm("vars"), "w")), tx(","), pr(attr(nm("vars"), "x")), tx(","), pr(attr(nm("vars"), "z")), tx("}"))
+	}
 	pre := []gen.Node{&gen.NSet{Name: "x", X: str("hx")}, &gen.NSet{Name: "y", X: str("hy")}}
 	var body []gen.Node
 	switch c.site {
@@ -153,7 +164,7 @@ func (p *c10) buildCfg(c c10cfg) *Program {
 		body = append(pre, tx("H("), &gen.NBlock{Name: "bb", Body: []gen.Node{tx("HOSTBB")}}, &gen.NBlock{Name: "ba", Body: append([]gen.Node{tx("HOSTBA(")}, append(site, tx(")"))...)}, tx(")"))
 	}
 	ts["main"] = tpl("main", body...)
-	return &Program{Templates: ts, Main: "main", Ctx: map[string]interface{}{"w": "ctxw"}}
+	return &Program{Templates: ts, Main: "main", Ctx: map[string]interface{}{"w": "ctxw", "vars": map[string]stick.Value{"w": "varsw", "x": "varsx"}}}
 }
 
 func (p *c10) cfgAt(i int) c10cfg {
@@ -178,15 +189,18 @@ func (p *c10) build(i int) (*Program, string, bool) {
 		if c.site == 3 && c.mode != 2 && c.mode != 3 {
 			c.mode = 2 + c.mode%2
 		}
+		if c.site == 3 && c.mode >= 5 {
+			c.mode = 3
+		}
 		collision := c.target == 1 || c.target == 4 || c.site == 2 || c.site == 5 || c.mode == 4 || c.site == 1
 		return p.buildCfg(c), c.String(), collision
 	}
 	// random: include-in-embed-in-include chains
 	r := gen.Rng(p.seed, "c10", i)
-	c := c10cfg{kind: r.Intn(2), mode: r.Intn(5), site: []int{0, 1, 2, 4, 5}[r.Intn(5)], target: r.Intn(5), over: r.Intn(4), twice: r.Intn(2)}
+	c := c10cfg{kind: r.Intn(2), mode: r.Intn(7), site: []int{0, 1, 2, 4, 5}[r.Intn(5)], target: r.Intn(5), over: r.Intn(4), twice: r.Intn(2)}
 	prog := p.buildCfg(c)
 	// the target's ba block gets a nested construct pointing at a second target
-	c2 := c10cfg{kind: r.Intn(2), mode: r.Intn(5), target: r.Intn(3), over: r.Intn(4)}
+	c2 := c10cfg{kind: r.Intn(2), mode: r.Intn(7), target: r.Intn(3), over: r.Intn(4)}
 	c10target(prog.Templates, "tgt2", c2.target)
 	inner := []gen.Node{tx("N("), c10construct(c2, "tgt2", c2.over, "n"), tx(")")}
 	inner = append(inner, c10probe("tgt.afternested")...)
@@ -224,6 +238,11 @@ func (p *c10) Run(i int) (res fw.Result) {
 		return
 	}
 	res.AddObs("probes", int64(strings.Count(lib.out, "[")))
+	if v, ok := prog.Ctx["vars"].(map[string]stick.Value); ok {
+		if len(v) != 2 || v["w"] != "varsw" || v["x"] != "varsx" {
+			res.Fail("caller-map-changed", "c10:callermap:"+sig, fmt.Sprintf("the hash passed by the caller was modified by the included template: %v", v), prog.describe())
+		}
+	}
 	if nt {
 		if i < p.nEnum {
 			res.UniqueNT = 1
@@ -235,7 +254,7 @@ func (p *c10) Run(i int) (res fw.Result) {
 }
 
 func (p *c10) Rule() string {
-	return "exhaustive product {include, embed} x {plain, with {w}, only, with+only, with overriding a host variable} x call site {top level, loop body whose loop variable collides with a host variable, block of an extending host whose ancestor has blocks named like the target's, macro body, if body, block of a non-extending host that shares both block names} x target {plain, assigns colliding names x and w, assigns a fresh name, extends a base, extends a base and assigns inside a block} x embed override subset (4 subsets of {ba, bb}; bb's override calls parent()) x {once, twice in a row with the complementary override subset}; random: a second (and third) include/embed nested inside the target's block or an override. Host and target print which of x, y, w, z they see (probe function) at the start, after assignments, inside every block and override, and after the construct. Oracle: reference model (copy of the visible variables overlaid by the with-hash, or the with-hash alone under only; assignments never flow back; embed = exactly the overrides of its body in front of the target's own chain). Non-trivial = a name or block-name collision exists; enumerated coordinates are distinct by construction."
+	return "exhaustive product {include, embed} x {plain, with {w}, only, with+only, with overriding a host variable, with an existing hash variable + only, with an existing hash variable} x call site {top level, loop body whose loop variable collides with a host variable, block of an extending host whose ancestor has blocks named like the target's, macro body, if body, block of a non-extending host that shares both block names} x target {plain, assigns colliding names x and w, assigns a fresh name, extends a base, extends a base and assigns inside a block} x embed override subset (4 subsets of {ba, bb}; bb's override calls parent()) x {once, twice in a row with the complementary override subset}; random: a second (and third) include/embed nested inside the target's block or an override. Host and target print which of x, y, w, z they see (probe function) at the start, after assignments, inside every block and override, and after the construct. Oracle: reference model (copy of the visible variables overlaid by the with-hash, or the with-hash alone under only; assignments never flow back; embed = exactly the overrides of its body in front of the target's own chain). Non-trivial = a name or block-name collision exists; enumerated coordinates are distinct by construction."
 }
 
 func (p *c10) Assumptions() []string {
